@@ -83,3 +83,106 @@ class compile_pivot_by_none:
     modifies = []
     native = False
     ensures = [('no-pivot', lambda result: result is None)]
+
+
+# ---- ORDER BY key resolution (C03, C07, C05) -------------------------------------------------------------------------
+@spec(uninterpreted=True, sig=(['val'], 'val'))
+def compiled_of(node):
+    """the compiled form of an expression node (deterministic for a fixed table): result of Compiler._compile"""
+    raise NotImplementedError
+
+
+@spec(uninterpreted=True, sig=(['val'], 'seq'))
+def cols_of(c_expr):
+    raise NotImplementedError
+
+
+@spec(uninterpreted=True, sig=(['val'], 'seq'))
+def aggs_of(c_expr):
+    raise NotImplementedError
+
+
+class _compile_assumed:
+    """assumed contract of the expression compiler seen from the clause resolvers: a deterministic function of the node
+    that leaves the compiler state alone and rejects only with CompilationError (handlers are checked separately: C08 frame)"""
+    kind = 'assumed'
+    params = {'self': COMPILER, 'node': Dyn()}
+    result = Opaque('node')
+    raises = {'CompilationError': None}
+    modifies = []
+    ensures = [('deterministic', lambda node, result: result == compiled_of(node))]
+
+
+class _gca_assumed:
+    kind = 'assumed'
+    params = {'node': Opaque('node')}
+    result = Fixed([ListOf(Opaque('node')), ListOf(Opaque('node'))])
+    ensures = [('columns-and-aggregates', lambda node, result: result[0] == cols_of(node) and result[1] == aggs_of(node))]
+
+
+class _is_aggregate_assumed:
+    kind = 'assumed'
+    params = {'node': Opaque('node')}
+    result = Bool()
+    ensures = [('has-aggregates', lambda node, result: result == (len(aggs_of(node)) > 0))]
+
+
+CALLEES = {f'{CP}:Compiler._compile': Contract(f'{CP}:Compiler._compile', _compile_assumed, 'clauses'),
+           f'{CP}:get_columns_and_aggregates': Contract(f'{CP}:get_columns_and_aggregates', _gca_assumed, 'clauses'),
+           f'{CP}:is_aggregate': Contract(f'{CP}:is_aggregate', _is_aggregate_assumed, 'clauses')}
+EXPR = Rec('Expr', attrs={}, isa=None)
+ORDER = Rec('OrderBy', attrs=dict(column=Union(Int(), COLNODE, Opaque('expr')), ordering=Opaque('ordering')))
+CTARGETS = ListOf(TARGET, maxlen=3)
+
+
+@spec
+def order_key(column, c_targets, new_targets, index):
+    """what `index` must be for the ORDER BY key `column`: a 1-based position among the selected targets; the (last) selected
+    target of that name; otherwise a target (existing, or appended hidden) whose compiled expression is the key's"""
+    byname = {target.name: idx for idx, target in enumerate(c_targets) if target.name is not None}.get(column.name) if isinstance(column, ext('beanquery.parser.ast.Column')) else None
+    if isinstance(column, int):
+        return index == column - 1 and 0 <= index < nselected(c_targets)
+    if byname is not None:
+        return index == byname
+    return 0 <= index < len(new_targets) and new_targets[index].c_expr == compiled_of(column)
+
+
+@contract(f'{CP}:Compiler._compile_order_by')
+class compile_order_by:
+    props = ['C03', 'C07', 'C05']
+    params = {'self': COMPILER, 'order_by': ListOf(ORDER, minlen=1, maxlen=2), 'c_targets': CTARGETS}
+    callees = CALLEES
+    opaque_ctors = {'EvalTarget': ['c_expr', 'name', 'is_aggregate']}
+    hints = ['seq-pointwise']
+    timeout = 4000
+    modifies = ['fields:c_expr', 'fields:name', 'fields:is_aggregate']
+    native = False
+    assumes = ['ATTRS_PRESENT', 'compiled nodes compare by ==; list.index finds the first equal element (merge soundness is C03 EvalNode.__eq__)']
+    note = 'what each key denotes (position / name / expression) and the range of the indexes are NOT carried by this contract: the invariants with order_key() / the index range did not discharge within the budget (nested pair handles); bounded evidence in h03, h05, h07'
+    raises = {'CompilationError': None}
+    loops = {0: dict(fields=['c_expr', 'name', 'is_aggregate'],
+                     inv=lambda order_by, c_targets, new_targets, c_target_expressions, order_spec, _i:
+                     len(order_spec) == _i
+                     and len(new_targets) >= len(c_targets) and all(new_targets[j] == c_targets[j] for j in range(len(c_targets)))
+                     and len(c_target_expressions) == len(new_targets)
+                     and all(c_target_expressions[j] == new_targets[j].c_expr for j in range(len(new_targets)))
+                     and all(new_targets[j].name is None for j in range(len(c_targets), len(new_targets)))
+                     and all(allocated(new_targets[j]) for j in range(len(new_targets)))
+                     and all(order_spec[j][1] == order_by[j].ordering for j in range(_i))
+                     and inputs_unchanged('c_expr', 'name', 'is_aggregate'))}
+    ensures = [
+        ('one-sort-key-per-clause-with-its-direction', lambda order_by, result: len(result[1]) == len(order_by)
+            and all(result[1][j][1] == order_by[j].ordering for j in range(len(order_by)))),
+        ('new-targets-are-hidden', lambda result: all(result[0][j].name is None for j in range(len(result[0])))),
+        ('selected-targets-untouched', lambda: inputs_unchanged('c_expr', 'name', 'is_aggregate')),
+    ]
+
+
+@contract(f'{CP}:Compiler._compile_order_by', 'absent')
+class compile_order_by_absent:
+    props = ['C03', 'C05']
+    params = {'self': COMPILER, 'order_by': NoneS(), 'c_targets': CTARGETS}
+    callees = CALLEES
+    modifies = []
+    native = False
+    ensures = [('no-order', lambda result: len(result[0]) == 0 and result[1] is None)]
